@@ -61,7 +61,9 @@ Fails == <<"error">>
 
 PrefixNames(parts) == [i \in 1..Len(parts) |-> JoinStr(SubSeq(parts, 1, i), ".")]
 
-Names == { <<"a">>, <<"a", "b">>, <<"a", "b", "c">>, <<"a", "b", "c", "d">>, <<"svc", "prod">>, <<"x1", "y-2", "z_3">> }
+Names == { <<"a">>, <<"a", "b">>, <<"a", "b", "c">>, <<"a", "b", "c", "d">>, <<"svc", "prod">>, <<"x1", "y-2", "z_3">>,
+           (* a name segment that is itself a format name: "svc.json" is a LAYER here, next to the file svc.json *)
+           <<"svc", "json", "prod">>, <<"app", "yaml">> }
 Rots == 0..4
 
 CasesC03(lazy) ==
